@@ -10,6 +10,11 @@ NOT_APPLICABLE = {
 for _p in ["C%02d" % i for i in range(1, 21)]:
     NOT_APPLICABLE.setdefault(_p, PENDING)
 CLAIMED = {
+    "C01": {
+        "text": "Decides structural necessary conditions of the cell round trip for all cells: the writer's (kind, formula) -> t= table, extracted as a normal form of Cell::write_to, composed with the reader's t= -> setter -> constructible-kinds table, preserves every kind of the property's domain; the <v> payload of every kind is data-dependent on the value; the bool literals agree; text reaches the XML sink only through escaping wrappers (who-may-call) and every Event::Text consumer unescapes exactly once; the shared-string key covers all content fields. Does not decide f64/Unicode fidelity or equality of reloaded cell sets.",
+        "note": NOTE,
+        "technique": "normal-form extraction of the writer (MIR) vs reader dispatch tables (typed HIR); who-may-call over the resolved call graph; field-coverage (E2)",
+    },
     "C10": {
         "text": "Decides structural necessary conditions of store coherence for all histories: every key-changing operation on the cell map is paired with both index operations under the same path condition or followed by the bulk rebuild; index orientation (as-is vs swapped) is consistent across all writers, the rebuild and every reader (symbolic normal forms of the iterator chains, name-free); the rebuild keys each cell by its own coordinate and follows every coordinate mutation of stored cells; inserters are called only from row-establishing contexts; the extent getter reads the right index. Does not decide agreement of listings at run time (needs the std-collection assumption).",
         "note": NOTE,
